@@ -719,7 +719,7 @@ impl Connection {
         format!(
             "id={},addr={},state={:?},confirmed={},seq={},recv={},send={},timeout={},expire={},ud={},sk={},rk={},rp{{{}}}",
             self.client_id,
-            self.addr,
+            crate::verif::addr_text(&self.addr),
             self.state,
             self.confirmed,
             self.sequence,
@@ -747,8 +747,14 @@ impl NetcodeServer {
         self.challenge_key
     }
 
+    /// Replaces the randomly generated challenge key (verification hook, meant to be called right
+    /// after `new` so that a recorded operation sequence can be replayed byte for byte).
+    pub fn verif_set_challenge_key(&mut self, key: [u8; NETCODE_KEY_BYTES]) {
+        self.challenge_key = key;
+    }
+
     /// Canonical read-only dump of the server state (verification hook).
-    /// Pending clients are sorted by address; token entries are listed in slot order.
+    /// Pending clients are sorted by address text; token entries are listed in slot order.
     pub fn verif_dump(&self) -> String {
         let slots: Vec<String> = self
             .clients
@@ -756,14 +762,21 @@ impl NetcodeServer {
             .enumerate()
             .filter_map(|(i, c)| c.as_ref().map(|c| format!("{}:{{{}}}", i, c.verif_dump())))
             .collect();
-        let mut pending: Vec<(String, String)> = self.pending_clients.iter().map(|(a, c)| (a.to_string(), c.verif_dump())).collect();
+        let mut pending: Vec<(String, String)> = self
+            .pending_clients
+            .iter()
+            .map(|(a, c)| (crate::verif::addr_text(a), c.verif_dump()))
+            .collect();
         pending.sort();
         let pending: Vec<String> = pending.into_iter().map(|(_, d)| format!("{{{}}}", d)).collect();
         let entries: Vec<String> = self
             .connect_token_entries
             .iter()
             .enumerate()
-            .filter_map(|(i, e)| e.as_ref().map(|e| format!("{}:{}@{}#{}", i, e.address, e.time.as_nanos(), verif_hex(&e.mac[..4]))))
+            .filter_map(|(i, e)| {
+                e.as_ref()
+                    .map(|e| format!("{}:{}@{}#{}", i, crate::verif::addr_text(&e.address), e.time.as_nanos(), verif_hex(&e.mac[..4])))
+            })
             .collect();
         format!(
             "now={} max={} nslots={} cseq={} gseq={} slots=[{}] pending=[{}] entries=[{}]",
